@@ -5,6 +5,9 @@ import NA.Proofs.F2Unordered
 import NA.Proofs.F1Names
 import NA.Proofs.F2Final
 import NA.Proofs.F2Equiv
+import NA.Proofs.F2Plan
+import NA.Proofs.F2Quiet
+import NA.Proofs.F2Again
 /-!
 # F2 — the IOS diff engine on fragment F2 (C02, C07, C08, C10, C14)
 
@@ -15,7 +18,7 @@ All theorems are for ALL inputs (configurations, scripts) unless a decidable hyp
 namespace NA.F2
 open NA.IosDev2
 open NA.Acl (Range BlockEqG LineEqv)
-open NA.F1 (genName isTagged diffUnordered)
+open NA.F1 (genName isTagged diffUnordered lookupD)
 
 /-! ## 1. Generated names -/
 
@@ -358,6 +361,97 @@ theorem alignVRFs_frame (a b : Config) :
   obtain ⟨_, h2, h3, h4, h5⟩ := alignVRFs_spec a b {} ⟨rfl, rfl, rfl, rfl, rfl, rfl⟩
   exact ⟨h2, h3, h4, h5⟩
 
+/-! ## 5b. Unchanged ⇔ settled; second compare -/
+
+/-- **`ios_F2_unchanged_only_if_equivalent`**: under `wfB`, if the engine prints nothing ("device
+unchanged"), then the device already is as the target says: every target binding is in place and
+points to an existing ACL that is block-equivalent modulo `log` to the target's, directions the target
+does not bind are unbound, and in every VRF for which the target specifies routes the device's routes
+are exactly the target's. -/
+theorem ios_F2_unchanged_only_if_equivalent (a0 b : Config) (sc : Scripts) (hw : wfB a0 b sc = true)
+    (hok : (engine a0 b sc).ok = true) (hempty : (engine a0 b sc).script = []) :
+    (∀ bi ∈ b.intfs, ∀ bd ∈ bi.binds, ∃ n, slotOf (ofConfig a0) bi.name bd.dir = some n ∧ hasAcl (ofConfig a0) n = true ∧
+        BlockEquivA (linesOf (ofConfig a0) n) (b.lines bd.acl)) ∧
+    (∀ bi ∈ b.intfs, ∀ dir, isDir dir = true → dir ∉ bi.binds.map (·.dir) → slotOf (ofConfig a0) bi.name dir = none) ∧
+    (∀ r ∈ a0.routes ++ b.routes, r.vrf ∈ b.routes.map (·.vrf) →
+        (r.text ∈ a0.routes.map (·.text) ↔ r.text ∈ b.routes.map (·.text))) := by
+  obtain ⟨d', h, h1, h2, _⟩ := ios_F2_converges_partial a0 b sc hw hok
+  obtain ⟨d'', h', h3, _⟩ := ios_routes_converge a0 b sc hw hok
+  rw [hempty, exec_nil] at h h'
+  simp only [Option.map_some, Option.some.injEq] at h h'
+  subst h; subst h'
+  exact ⟨h1, h2, h3⟩
+
+/-- The ACL half of it, for one pair: a quiet line planner on a pair of the class `incrOK` means block
+equivalence modulo `log` (from `planIOS_empty_blockEquiv`, F2Plan). -/
+theorem ios_acl_quiet_only_if_equivalent (al bl : List ALine) (rs : List Range) (hok : incrOK al bl rs = true)
+    (hq : quietLines al bl rs = true) : BlockEquivA al bl := quietLines_blockEquivA al bl rs hok hq
+
+/-- **`ios_F2_quiet`** (the converse direction): a pair of configurations that is statically settled
+(`settledB`: same directions bound on interfaces of the same name, device and target ACLs paired
+one-to-one by these bindings, no compared device ACL bound by an interface without partner, the line
+planner quiet on every compared pair, target routes present and no further route in a VRF with target
+routes, every `-DRC-` ACL compared or bound without partner) gives the EMPTY script — "device
+unchanged".  No hypothesis on remark lines. -/
+theorem ios_F2_quiet (a b : Config) (sc : Scripts) (hS : settledB a b sc = true) : (engine a b sc).script = [] :=
+  F2_quiet a b sc hS
+
+/-- **`ios_F2_idempotent_partial`** (the second compare).  Under `wfB` the script is accepted and leads
+to a device `d'`; let `a2` be the configuration a further compare reads from `d'` (`reconf`).  Then
+
+* every pair of ACLs the second compare looks at (`cmpPairs`) is block-equivalent modulo `log`;
+* for EVERY Myers result `sc2` of the second compare for which the line planner is quiet on these
+  pairs (`quietLines`: valid script that keeps a line, empty plan — or both lists empty), `a2` is
+  statically settled and the second compare prints NOTHING.
+
+All other conjuncts of `settledB a2 b` are PROVED from the first run: `checkIOSInterfaces` succeeds
+again, the same directions are bound, device and target ACLs are paired one-to-one (the name function
+of the run is injective), no compared ACL is bound by an interface without partner, the routes of
+the managed VRFs are the target's, every `-DRC-` ACL on the device is compared or bound by an
+interface without partner (`F2Again.lean`).  The remaining hypothesis cannot be dropped in this
+formulation: `plan_second_script_counterexample` — for block-equivalent ACLs the plan depends on which
+valid script Myers returns, and Myers is a parameter (validated per call).  The driver evaluates
+`settledB` on every second compare: 1012 of 1012 second compares after a `wfB` run are settled (quick).
+The unrestricted `ios_F2_idempotent` is false: `ios_F2_converges_counterexample` (remark lines). -/
+theorem ios_F2_idempotent_partial (a0 b : Config) (sc : Scripts) (hw : wfB a0 b sc = true) (hok : (engine a0 b sc).ok = true) :
+    ∃ d', (exec (ofConfig a0) (engine a0 b sc).script).map strip = some d' ∧
+      (∀ p ∈ cmpPairs (alignVRFs (reconf a0 (a0.routes ++ b.routes) d') b {}).2 b,
+        BlockEquivA ((reconf a0 (a0.routes ++ b.routes) d').lines p.1) (b.lines p.2)) ∧
+      ∀ sc2, (∀ p ∈ cmpPairs (alignVRFs (reconf a0 (a0.routes ++ b.routes) d') b {}).2 b,
+          quietLines ((reconf a0 (a0.routes ++ b.routes) d').lines p.1) (b.lines p.2) (lookupD sc2.acl p) = true) →
+        settledB (reconf a0 (a0.routes ++ b.routes) d') b sc2 = true ∧
+        (engine (reconf a0 (a0.routes ++ b.routes) d') b sc2).script = [] := by
+  have hwf := WF_of_wfB hw
+  obtain ⟨d', nm, R, h, hA, hS⟩ := F2_settled_after a0 b sc hwf hok
+  refine ⟨d', h, ?_, fun sc2 hq => ⟨hS sc2 hq, F2_quiet _ b sc2 (hS sc2 hq)⟩⟩
+  intro p hp
+  obtain ⟨_, h2, bi, hbi, bd, hbd, h3⟩ := after_M hwf hA (a0.routes ++ b.routes) p.1 p.2 hp
+  rw [lines_reconf, h2, ← h3]
+  exact (hA.eqv bi hbi bd hbd).blockEquivA
+
+/-- `ios_no_generated_leftover` (C02: no left-over `-DRC-` object): after the script every generated
+(`-DRC-`) ACL on the device is bound — by a target interface, under the name the run gave to the
+target's ACL, or by an interface the target does not name (whose ACLs are never touched). -/
+theorem ios_no_generated_leftover (a0 b : Config) (sc : Scripts) (hw : wfB a0 b sc = true) (hok : (engine a0 b sc).ok = true) :
+    ∃ d', (exec (ofConfig a0) (engine a0 b sc).script).map strip = some d' ∧
+      ∀ n, hasAcl d' n = true → isTagged n = true →
+        (∃ bi ∈ b.intfs, ∃ bd ∈ bi.binds, slotOf d' bi.name bd.dir = some n) ∨
+        (∃ i ∈ a0.intfs, i.name ∉ b.intfs.map (·.name) ∧ n ∈ i.binds.map (·.acl)) := by
+  have hwf := WF_of_wfB hw
+  obtain ⟨d', nm, R, h, hA, _⟩ := F2_settled_after a0 b sc hwf hok
+  refine ⟨d', h, ?_⟩
+  intro n hn ht
+  rcases hA.tagged n hn ht with ⟨bN, hbN, rfl⟩ | k
+  · obtain ⟨bi, hbi, bd, hbd, rfl⟩ := hA.boundR bN hbN
+    exact Or.inl ⟨bi, hbi, bd, hbd, (hA.slotB bi hbi bd hbd).2.1⟩
+  · exact Or.inr k
+
+/-- `ios_plan_all_both_quiet` / `ios_plan_quiet_only_if_equivalent` (F2Plan, on the cells of
+`NA.Acl.planIOS`): identical lists with the identity script are planned as "nothing to do"; an empty
+plan of a valid script that keeps a line means block equivalence. -/
+theorem ios_plan_all_both_quiet (M : List NA.Acl.Cell) (h : ∀ c ∈ M, c.old = true ∧ c.new = true) :
+    NA.Acl.planIOS M = [] := planIOS_all_both M h
+
 /-! ## 6. What is false: remark lines (F-C02r at configuration level) -/
 
 open NA.Acl (Act) in
@@ -398,6 +492,33 @@ theorem ios_F2_converges_counterexample :
              "no 10000\\N 30001 deny ip 10.1.0.0 0.0.255.255 any", "ip access-list resequence e0_in 10 10"]) := by
   refine ⟨by decide, by decide, by decide⟩
 
+/-! ### What is not claimed: "equivalent ⇒ unchanged" -/
+
+def W.q1 := W.mkL "permit tcp any any eq 80" .permit
+def W.q2 := W.mkL "permit tcp any any eq 81" .permit
+def W.q3 := W.mkL "deny tcp any any eq 90" .deny
+def W.q4 := W.mkL "deny tcp any any eq 91" .deny
+def W.devQ : Config := { intfs := [W.e0 "e0_in"], acls := [("e0_in", [W.q1, W.q2, W.q3, W.q4])] }
+def W.tgtQ : Config := { intfs := [W.e0 "e0_in"], acls := [("e0_in", [W.q2, W.q1, W.q4, W.q3])] }
+/-- the ranges `myers.Diff` returns for these lists (corpus case of vh-f2; validated by the driver) -/
+def W.scQ : Scripts := { acl := [(("e0_in", "e0_in"), [⟨0,1,0,0⟩, ⟨1,2,0,1⟩, ⟨2,3,1,1⟩, ⟨3,3,1,2⟩, ⟨3,4,2,3⟩, ⟨4,4,3,4⟩])] }
+
+open W in
+/-- The converse of `ios_F2_unchanged_only_if_equivalent` does not hold (and is not a requirement): a
+device ACL that differs from the target's only in the order inside runs of equal action is
+block-equivalent, the pair is in the class `wfB`, yet with the script Myers returns the engine moves
+two lines (as the real `drc` does: corpus case of vh-f2).  Cosmetic; the script converges and the next
+compare is empty. -/
+theorem ios_unchanged_if_equivalent_counterexample :
+    blockEquivL (devQ.lines "e0_in") (tgtQ.lines "e0_in") = true ∧ wfB devQ tgtQ scQ = true ∧
+    showChanges (engine devQ tgtQ scQ).script =
+      ["ip access-list resequence e0_in 10000 10000", "ip access-list extended e0_in",
+       "no 10000\\N 30001 permit tcp any any eq 80", "no 30000\\N 40001 deny tcp any any eq 90",
+       "ip access-list resequence e0_in 10 10"] ∧
+    ((exec (ofConfig devQ) (engine devQ tgtQ scQ).script).map fun d =>
+      showChanges (engine (toConfig d) tgtQ { acl := [(("e0_in", "e0_in"), [⟨0,4,0,4⟩])] }).script) = some [] := by
+  decide
+
 /-! ### Non-vacuity -/
 
 open W in
@@ -408,12 +529,76 @@ example : incrOK (devN.lines "e0_in") (tgtN.lines "e0_in") [⟨0,0,0,1⟩, ⟨0,
 
 example : replaceOK [W.pA] [W.pT, W.dAny] [⟨0,1,0,0⟩, ⟨0,0,0,2⟩] = true := by decide
 
+/-! ### Non-vacuity of the composed class: several interfaces, two VRFs, routes, an unknown interface -/
+
+def W.e1 (acl : String) : Intf := { name := "Ethernet1", vrf := "V1", addr := "y", binds := [⟨acl, "in"⟩, ⟨"e1_out", "out"⟩] }
+def W.lo7 : Intf := { name := "Loopback7", addr := "z", binds := [⟨"lo_in", "in"⟩] }
+def W.r (t v d : String) (k : Nat) : Route := ⟨t, v, d, k⟩
+/-- device: two managed interfaces (global table and VRF V1), an interface unknown to Netspoc with its own
+ACL, a generated left-over ACL, routes in both VRFs -/
+def W.devM : Config :=
+  { intfs := [W.e0 "e0_in-DRC-0", W.e1 "e1_in", W.lo7],
+    acls := [("e0_in-DRC-0", [W.pT, W.dAny]), ("e1_in", [W.dA, W.pA]), ("e1_out", [W.pA]), ("lo_in", [W.pA]),
+             ("old-DRC-1", [W.dAny])],
+    routes := [W.r "10.8.0.0 255.255.0.0 10.1.1.253" "" "10.8.0.0/16" 112,
+               W.r "vrf V1 10.9.0.0 255.255.0.0 10.2.2.254" "V1" "10.9.0.0/16" 112] }
+/-- target: another line in the first ACL, one line less in the second, the outbound binding of
+Ethernet1 gone, another gateway for the global route, no routes for V1 -/
+def W.tgtM : Config :=
+  { intfs := [W.e0 "e0_in", { W.e1 "e1_in" with binds := [⟨"e1_in", "in"⟩] }],
+    acls := [("e0_in", [W.pA, W.pT, W.dAny]), ("e1_in", [W.pA])],
+    routes := [W.r "10.8.0.0 255.255.0.0 10.1.1.254" "" "10.8.0.0/16" 112] }
+def W.scM : Scripts :=
+  { acl := [(("e0_in-DRC-0", "e0_in"), [⟨0,0,0,1⟩, ⟨0,2,1,3⟩]), (("e1_in", "e1_in"), [⟨0,1,0,0⟩, ⟨1,2,0,1⟩])] }
+
+open W in
+example : wfB devM tgtM scM = true ∧ (engine devM tgtM scM).ok = true ∧
+    showChanges (engine devM tgtM scM).script =
+      ["ip access-list resequence e0_in-DRC-0 10000 10000", "ip access-list extended e0_in-DRC-0",
+       "1 permit ip 10.1.0.0 0.0.255.255 any", "ip access-list resequence e0_in-DRC-0 10 10",
+       "interface Ethernet1", "no ip access-group e1_out out",
+       "ip access-list resequence e1_in 10000 10000", "ip access-list extended e1_in", "no 10000",
+       "ip access-list resequence e1_in 10 10",
+       "no ip route 10.8.0.0 255.255.0.0 10.1.1.253\\N ip route 10.8.0.0 255.255.0.0 10.1.1.254",
+       "no ip access-list extended e1_out", "no ip access-list extended old-DRC-1"] := by decide
+
+/-- the executed result of that example, read back, is statically settled (identity scripts): the
+hypothesis of `ios_F2_idempotent_partial` / `ios_F2_quiet` is satisfiable on a reachable state -/
+def W.scM2 : Scripts :=
+  { acl := [(("e0_in-DRC-0", "e0_in"), [⟨0,3,0,3⟩]), (("e1_in", "e1_in"), [⟨0,1,0,1⟩])] }
+
+open W in
+example : ((exec (ofConfig devM) (engine devM tgtM scM).script).map fun d =>
+    (settledB (reconf devM (devM.routes ++ tgtM.routes) d) tgtM scM2,
+     showChanges (engine (reconf devM (devM.routes ++ tgtM.routes) d) tgtM scM2).script)) = some (true, []) := by
+  decide
+
+/- the hypothesis of `ios_F2_idempotent_partial` on that reachable state: the pairs of the second
+compare and the line planner on them -/
+open W in
+example : ((exec (ofConfig devM) (engine devM tgtM scM).script).map fun d =>
+    (cmpPairs (alignVRFs (reconf devM (devM.routes ++ tgtM.routes) d) tgtM {}).2 tgtM,
+     (cmpPairs (alignVRFs (reconf devM (devM.routes ++ tgtM.routes) d) tgtM {}).2 tgtM).all fun p =>
+       quietLines ((reconf devM (devM.routes ++ tgtM.routes) d).lines p.1) (tgtM.lines p.2) (lookupD scM2.acl p))) =
+    some ([("e0_in-DRC-0", "e0_in"), ("e1_in", "e1_in")], true) := by decide
+
+open W in
+example : settledB tgtN tgtN { acl := [(("e0_in", "e0_in"), [⟨0,3,0,3⟩])] } = true ∧
+    wfB tgtN tgtN { acl := [(("e0_in", "e0_in"), [⟨0,3,0,3⟩])] } = true ∧
+    (engine tgtN tgtN { acl := [(("e0_in", "e0_in"), [⟨0,3,0,3⟩])] }).script = [] := by decide
+
+open W in
+example : quietLines (tgtN.lines "e0_in") (tgtN.lines "e0_in") [⟨0,3,0,3⟩] = true ∧
+    incrOK (tgtN.lines "e0_in") (tgtN.lines "e0_in") [⟨0,3,0,3⟩] = true := by decide
+
 def obligations : List Lean.Name := [
   ``ios_names_fresh, ``ios_confmode_tracks, ``ios_confmode_tracks_events, ``ios_confmode_exec,
   ``ios_acl_object_converges_partial, ``ios_acl_object_replaced, ``ios_unordered_ranges,
   ``ios_F2_converges_partial, ``ios_script_accepted, ``ios_objects_before_use, ``ios_no_referenced_acl_deleted,
   ``ios_bindings_converge, ``ios_routes_converge,
   ``ios_routes_untouched_if_unspecified, ``ios_unmanaged_vrf_untouched, ``alignVRFs_frame,
-  ``ios_F2_converges_counterexample]
+  ``ios_F2_converges_counterexample, ``ios_unchanged_if_equivalent_counterexample, ``ios_F2_unchanged_only_if_equivalent, ``ios_acl_quiet_only_if_equivalent,
+  ``ios_F2_quiet, ``ios_F2_idempotent_partial, ``ios_no_generated_leftover, ``ios_plan_all_both_quiet, ``planIOS_empty_blockEquiv,
+  ``plan_second_script_counterexample]
 
 end NA.F2
